@@ -8,9 +8,11 @@
 
 mod bytes;
 mod c06;
+mod c12;
 mod cmdsim;
 mod core;
 mod driver;
+mod faulty_writer;
 mod gen;
 mod lexsim;
 mod rng;
@@ -23,13 +25,14 @@ fn engine_for(prop: &str) -> Option<Box<dyn DynEngine>> {
     Some(match prop {
         "C06" => Box::new(Dyn(c06::EnvSim)),
         "C11" => Box::new(Dyn(cmdsim::CmdSim)),
+        "C12" => Box::new(Dyn(c12::HelpSim)),
         "C13" => Box::new(Dyn(lexsim::LexSim(lexsim::Mode::C13))),
         "C14" => Box::new(Dyn(lexsim::LexSim(lexsim::Mode::C14))),
         _ => return None,
     })
 }
 
-pub const ALL_PROPS: &[&str] = &["C06", "C11", "C13", "C14"];
+pub const ALL_PROPS: &[&str] = &["C06", "C11", "C12", "C13", "C14"];
 
 fn arg_val(args: &[String], name: &str) -> Option<String> {
     args.iter().position(|a| a == name).and_then(|i| args.get(i + 1).cloned())
